@@ -33,10 +33,12 @@ const (
 	c19MineExpired         // this broker held it, its session expired (monitor cleared ownership)
 	c19OtherExpired        // broker 2 held it, its session expired
 	c19MineStolen          // this broker's session expired and broker 2 acquired the lease since
+	c19Restarted           // a previous incarnation of this broker (same id) held it; this incarnation re-acquired it; the old incarnation's session then expired
+	c19RestartedRace       // as c19Restarted, and broker 2 then tried to acquire it
 	c19States
 )
 
-var c19StateNames = []string{"unowned", "mine", "other", "mine-expired", "other-expired", "mine-expired-then-other"}
+var c19StateNames = []string{"unowned", "mine", "other", "mine-expired", "other-expired", "mine-expired-then-other", "mine-reacquired-after-restart-old-session-expired", "mine-reacquired-after-restart-old-session-expired-then-other-tries"}
 
 type c19Case struct {
 	State    [2]int
@@ -79,9 +81,37 @@ func c19Run(rep *vh.Report, c c19Case) {
 	if needExpire {
 		expire()
 	}
+	// stage 1b: restart. The previous incarnation's lease key is still in etcd when the new incarnation
+	// acquires; only the OLD incarnation's session lease expires afterwards.
+	for p, st := range c.State {
+		if st != c19Restarted && st != c19RestartedRace {
+			continue
+		}
+		before := map[int64]bool{}
+		for _, id := range srv.LiveLeases() {
+			before[id] = true
+		}
+		cli0 := srv.NewClient(fmt.Sprintf("b1.old%d", p))
+		cli0.NoPoints = true
+		lm0 := metadata.NewPartitionLeaseManager(cli0.C, metadata.PartitionLeaseConfig{BrokerID: "1", Logger: vLogger()})
+		_ = lm0.Acquire(ctx, "t", int32(p))
+		var old []int64
+		for _, id := range srv.LiveLeases() {
+			if !before[id] {
+				old = append(old, id)
+			}
+		}
+		_ = lm1.Acquire(ctx, "t", int32(p)) // the restarted broker takes its partition back
+		for _, id := range old {
+			srv.ExpireLease(id)
+		}
+		synctest.Wait()
+	}
 	// stage 2: live leases
 	for p, st := range c.State {
 		switch st {
+		case c19RestartedRace:
+			_ = lm2.Acquire(ctx, "t", int32(p))
 		case c19Mine:
 			_ = lm1.Acquire(ctx, "t", int32(p))
 		case c19Other, c19MineStolen:
@@ -156,6 +186,9 @@ func c19Run(rep *vh.Report, c c19Case) {
 		if r.Code == 0 {
 			if !owns {
 				rep.Violationf("acked-without-lease", c, "%s acknowledged but this broker does not hold its lease (%s)", tp, c)
+			} else if owner := srv.Dump("/kafscale/partition-leases/")[fmt.Sprintf("/kafscale/partition-leases/%s/%d", r.Topic, r.Partition)]; owner != "1" {
+				// "held the lease" is a fact of the lease store, not only of the broker's own bookkeeping
+				rep.Violationf("acked-while-etcd-names-other-owner", c, "%s acknowledged and this broker believes it owns the lease, but the lease key in etcd holds %q (%s)", tp, owner, c)
 			}
 			continue
 		}
@@ -190,7 +223,7 @@ func c19Run(rep *vh.Report, c c19Case) {
 func TestVerifC19(t *testing.T) {
 	rep := vh.New(t, "C19")
 	defer rep.Finish()
-	rep.Rule = "every (lease state of t/0) x (lease state of t/1) over {unowned, mine, other, mine-expired, other-expired, mine-expired-then-other} x etcd reachable/unreachable x non-empty subsets of {t/0, t/1, unknown u/0} x acks {-1,1,0}: one produce through the real handler with a real PartitionLeaseManager over the fake etcd; distinct = (states, etcd, per-partition code/owns/written); non-trivial = some lease state other than unowned or etcd down"
+	rep.Rule = "every (lease state of t/0) x (lease state of t/1) over {unowned, mine, other, mine-expired, other-expired, mine-expired-then-other, re-acquired after a same-id restart whose old session then expired (and then broker 2 tries to acquire)} x etcd reachable/unreachable x non-empty subsets of {t/0, t/1, unknown u/0} x acks {-1,1,0}: one produce through the real handler with a real PartitionLeaseManager over the fake etcd; distinct = (states, etcd, per-partition code/owns/written); non-trivial = some lease state other than unowned or etcd down"
 	rep.Assumptions = []string{"fake etcd stands for etcd", "sequential: no lease change during the request (a lease lost between check and append cannot be fenced without a fencing token and is outside the property's quantifier)", "retriable = NOT_LEADER_OR_FOLLOWER, REQUEST_TIMED_OUT, UNKNOWN_SERVER_ERROR, UNKNOWN_TOPIC_OR_PARTITION"}
 	var rp c19Case
 	if ok, err := vh.LoadReplay(&rp); ok {
